@@ -582,11 +582,45 @@ def _param_origins(f):
     return origin
 
 
-def _aliases(ctx, f, p):
+def _helper_follow(ctx, f, depth=0):
+    """follow(call, aliases) for `_preserving`: a method of the same class / a function of the same module that is handed
+    the IN list is read like the expander itself: what it returns holds the elements of its parameter ('same'), can hold
+    fewer ('drops'), or is not understood (None)."""
+    def follow(call, al):
+        if depth >= 2:
+            return None
+        fn = call.func
+        tgt = None
+        if isinstance(fn, ast.Attribute) and isinstance(fn.value, ast.Name) and fn.value.id in ("self", "cls") and f.cls is not None:
+            tgt = ctx.index.resolve_method(f.cls, fn.attr)
+        elif isinstance(fn, ast.Name):
+            tgt = f.module.functions.get(fn.id)
+        if tgt is None or tgt.type_only or not isinstance(tgt.node, ast.FunctionDef) or tgt.name.startswith(EXPANDERS_PREFIX):
+            return None
+        b = bind_call_args(call, [q for q in tgt.params if q not in ("self", "cls")])
+        if b is None:
+            return None
+        got = [q for q, a in b.items() if isinstance(a, ast.Name) and a.id in al]
+        if len(got) != 1 or any(_mentions(a, al) for q, a in b.items() if q != got[0]):
+            return None
+        ctx.functions_analysed.add(tgt.key)
+        al_h, problems_h = _aliases(ctx, tgt, got[0], depth + 1)
+        kinds = [_preserving(r.value, al_h, _helper_follow(ctx, tgt, depth + 1)) if r.value is not None else None
+                 for r in returns_of(tgt.node)]
+        if problems_h or "drops" in kinds:
+            return "drops"
+        if kinds and all(k == "same" for k in kinds):
+            return "same"
+        return None
+    return follow
+
+
+def _aliases(ctx, f, p, depth=0):
     """Names that hold the list passed as `p` (element preserving re-bindings), and the problems found
     while computing them (re-bindings that drop elements)."""
     al = {p}
     problems = []
+    follow = _helper_follow(ctx, f, depth)
     changed = True
     stores = list(_all_name_stores(f.node))
     for nf in ast.walk(f.node):
@@ -609,7 +643,7 @@ def _aliases(ctx, f, p):
                     seen_bad.add(id(st))
                     problems.append(f"`{unparse(st)[:90]}` replaces the IN list by something not derived from it")
                 continue
-            kind = _preserving(v, al)
+            kind = _preserving(v, al, follow)
             if kind == "same":
                 if n not in al:
                     al.add(n)
@@ -636,14 +670,32 @@ def _rebinding_feeds(name, fn, al):
     return False
 
 
-def _preserving(v, al):
+def _is_empty_display(v):
+    return isinstance(v, (ast.List, ast.Tuple)) and not v.elts
+
+
+def _preserving(v, al, follow=None):
     """'same' if expression `v` holds exactly the elements of an alias, 'drops' if it can hold fewer,
-    None if not understood."""
+    None if not understood.  `follow(call)` -> 'same' / 'drops' / None for a call of a helper that is handed the list."""
     if isinstance(v, ast.Name) and v.id in al:
         return "same"
+    if isinstance(v, ast.BoolOp):
+        # `<filtered copy> or values`, `values or []`, `a and b`: whichever operand is delivered, it has to hold the
+        # elements of the list; one that can hold fewer makes the whole expression one that can hold fewer
+        kinds = [_preserving(x, al, follow) for x in v.values
+                 if not (isinstance(v.op, ast.Or) and _is_empty_display(x))]
+        if "drops" in kinds:
+            return "drops"
+        if kinds and all(k == "same" for k in kinds):
+            return "same"
+        return None
+    if isinstance(v, ast.Call) and follow is not None and any(_mentions(a, al) for a in list(v.args) + [k.value for k in v.keywords]):
+        r = follow(v, al)
+        if r is not None:
+            return r
     if isinstance(v, ast.Call) and isinstance(v.func, ast.Name):
         if v.func.id in PRESERVING_CALLS and len(v.args) == 1:
-            return _preserving(v.args[0], al)
+            return _preserving(v.args[0], al, follow)
         if v.func.id in DROPPING_CALLS and any(_mentions(a, al) for a in v.args):
             return "drops"
     if isinstance(v, ast.Subscript) and isinstance(v.value, ast.Name) and v.value.id in al and isinstance(v.slice, ast.Slice):
@@ -656,7 +708,7 @@ def _preserving(v, al):
             if isinstance(v.elt, ast.Name) and isinstance(g.target, ast.Name) and v.elt.id == g.target.id:
                 return "same"
     if isinstance(v, ast.IfExp):
-        a, b = _preserving(v.body, al), _preserving(v.orelse, al)
+        a, b = _preserving(v.body, al, follow), _preserving(v.orelse, al, follow)
         if "drops" in (a, b):
             return "drops"
         if a == b == "same":
@@ -768,8 +820,9 @@ def r4(ctx):
                 ctx.require(not ({"Continue", "Break", "If"} & body_kinds),
                             f"{f.key}: a `for` loop over the IN list with conditional flow (unknown idiom)")
         ctx.check(not problems, f"{f.key}:every-element-rendered",
-                  "; ".join(problems) + " -- `x NOT IN (1, NULL)` / duplicates / re-bound lists then differ from the "
-                                        "OR-of-equalities the bound path evaluates",
+                  "; ".join(problems) + " -- `x NOT IN (1, NULL)`, `NOT (x IN (1, NULL) AND ..)`, duplicates and re-bound lists "
+                                        "then differ from the OR-of-equalities over the whole list (and the literal and the "
+                                        "bound expansion from each other)",
                   f"`{p}` reaches {len(gens)} element loops unfiltered (aliases {sorted(al)})", f.loc)
         # (ii) the empty arm is selected by emptiness alone
         for i, c in enumerate(empty_sites):
@@ -1113,6 +1166,262 @@ def r6(ctx):
               f"column can have the same name (`x IN (..)` expands `x_1` to `x_1_1`, which is also the name of the "
               f"parameter in `x_1 = :x_1_1`), and one value silently replaces the other",
               f"{len(tests)} test(s)", f"{f.module.path}:{ups[0].lineno}")
+
+
+# ------------------------------------------------------------------------------------------ R7
+# A coercion receives the *caller's* element (`col.in_(my_bindparam)`): whatever it has to stamp on it (expanding,
+# expand_op) goes on a copy.  The object the caller holds can be part of another, already compiled and cached, statement;
+# expand_op is not in the cache key, so a stamp on the shared object re-writes the other statement's empty-set form.
+# T-FRESH over all of sql/coercions.py: attribute stores / in-place mutation only on objects that are fresh on EVERY path
+# that reaches the store (forward typestate on the CFG; a clone made on one branch only is not fresh after the join).
+COERC = "sql/coercions.py"
+COERCION_HOOKS = ("_post_coercion", "_literal_coercion", "_implicit_coercions")
+R7_EXCEPTIONS = {
+    f"{COERC}::expect:apply_propagate_attrs._propagate_attrs":
+        "documented out-parameter: the statement under construction passes ITSELF as apply_propagate_attrs so that the "
+        "coerced element's plugin attributes are copied onto it; it is not the element being coerced",
+}
+
+
+def _r7_callees(ix, mod, f, call):
+    """Functions of sql/coercions.py a call in `f` may run: `self.m()` / `cls.m()` / `super().m()` -> every method of the
+    module named m (mixins are composed freely, so the static class of `self` says little), `name()` -> module function."""
+    fn = call.func
+    if isinstance(fn, ast.Name):
+        t = mod.functions.get(fn.id)
+        return [t] if t is not None else []
+    if isinstance(fn, ast.Attribute):
+        recv = fn.value
+        is_self = (isinstance(recv, ast.Name) and recv.id in ("self", "cls")) or \
+                  (isinstance(recv, ast.Call) and isinstance(recv.func, ast.Name) and recv.func.id == "super")
+        if is_self and f.cls is not None:
+            return [c.methods[fn.attr] for c in mod.classes.values() if fn.attr in c.methods]
+    return []
+
+
+@R.rule("C07-R7", floor=40, template="T-FRESH",
+        desc="no function of sql/coercions.py stores an attribute on / mutates in place an object that is not fresh on every "
+             "path reaching the store: the caller's element (a bindparam given to in_() / not_in(), a column, a statement) "
+             "is stamped only after `x = x._clone(...)`; helpers are judged with the states their in-module callers pass")
+def r7(ctx):
+    from ..fresh import F, S, U, FreshAnalysis, join
+    ix = ctx.index
+    mod = ix.module(COERC)
+    funcs = [f for f in ix.all_functions(mod) if getattr(f, "parent_func", None) is None and not f.type_only
+             and isinstance(f.node, ast.FunctionDef)]
+    ctx.require(any(f.name in COERCION_HOOKS for f in funcs), "no coercion hooks (_post_coercion ...) in sql/coercions.py")
+    # who may be called from outside the module: hooks (through expect()), public names, names other modules mention
+    other_src = [m.source for m in ix.all_modules() if m is not mod and "coercions" in m.source]
+    sites = {}   # callee key -> [(caller, call)]
+    for f in funcs:
+        for c in calls_in(f.node):
+            for t in _r7_callees(ix, mod, f, c):
+                if t is not None and t.node is not f.node:
+                    sites.setdefault(t.key, []).append((f, c))
+
+    def external(f):
+        if f.name in COERCION_HOOKS or not f.name.startswith("_") or f.name.startswith("__"):
+            return True
+        if f.key not in sites:
+            return True
+        return any(re.search(r"\bcoercions\.%s\b|import\s+%s\b" % (re.escape(f.name), re.escape(f.name)), src) for src in other_src)
+
+    analyses = {}
+
+    def fresh_call_for(f):
+        def fresh_call(call, state_of):
+            nm = call_name(call) or ""
+            if isinstance(call.func, (ast.Name, ast.Attribute)) and "()" not in nm and nm:
+                r = ix.resolve(mod, nm)
+                if isinstance(r, ClassInfo):
+                    return F
+            return None
+        return fresh_call
+
+    def analyse(f, env):
+        an = FreshAnalysis(ctx.cfg(f), env, fresh_call=fresh_call_for(f))
+        analyses[f.key] = an
+        return an
+
+    entry_env = {}
+    for f in funcs:
+        entry_env[f.key] = {q: S for q in f.params}
+    # two rounds: entry points first, then helpers with what their callers hand them (helpers of helpers in round 2)
+    for rnd in range(3):
+        for f in funcs:
+            if external(f):
+                if rnd == 0:
+                    analyse(f, entry_env[f.key])
+                continue
+            env = {}
+            params = [q for q in f.params if q not in ("self", "cls")]
+            for caller, c in sites[f.key]:
+                an = analyses.get(caller.key)
+                b = bind_call_args(c, params)
+                nodes = ctx.cfg(caller).nodes_containing(c)
+                for q in params:
+                    st = S
+                    if an is not None and b is not None and q in b and nodes:
+                        st = F
+                        for nid in nodes:
+                            st = join(st, an.state(b[q], an.pre.get(nid, {})))
+                    env[q] = join(env[q], st) if q in env else st
+            for q in f.params:
+                env.setdefault(q, S)
+            analyse(f, env)
+    n_hooks = 0
+    seen_exc = set()
+    for f in funcs:
+        an = analyses[f.key]
+        ctx.functions_analysed.add(f.key)
+        bad, unknown, okd = [], [], []
+        for nid, kind, root, d, node in an.mutation_sinks():
+            if root in ("self", "cls"):
+                continue
+            ek = f"{f.key}:{d}"
+            if ek in R7_EXCEPTIONS:
+                seen_exc.add(ek)
+                ctx.note(f"{ek}: exempt ({R7_EXCEPTIONS[ek]})")
+                continue
+            st = an.state_at(nid, root)
+            txt = unparse(node)[:70]
+            if st == F:
+                okd.append(d)
+            elif st == S:
+                how = "a parameter / shared object" if root in f.params else "not a fresh copy on every path"
+                bad.append(f"`{txt}` ({'store on' if kind == 'attr-store' else 'in-place mutation of'} `{root}`, {how}"
+                           f"{'' if external(f) else '; as passed by ' + ', '.join(sorted({c_.qualname for c_, _ in sites[f.key]}))})")
+            else:
+                unknown.append(f"`{txt}`: origin of `{root}` not understood")
+        ctx.require(not unknown, f"{f.key}: {unknown[:2]} (unknown idiom)")
+        if f.name in COERCION_HOOKS:
+            n_hooks += 1
+        if not (f.name in COERCION_HOOKS or bad or okd):
+            continue
+        ctx.check(not bad, f"{f.key}:caller-element-not-mutated",
+                  "; ".join(sorted(set(bad))) + " -- the coercion changes the object the caller passed in (and may have used in "
+                  "another statement that is already compiled / cached): e.g. one bindparam(expanding=True) used with in_() and "
+                  "with not_in() ends up with the expand_op of whichever came last, and `x IN ()` renders the NOT IN empty set "
+                  "(`IN (NULL) OR (1 = 1)`: all rows); stamp only `x = x._clone(...)`",
+                  f"{len(okd)} store(s), all on fresh copies" if okd else "no store on a non-local object", f.loc)
+    for k in R7_EXCEPTIONS:
+        ctx.require(k in seen_exc, f"R7 exception entry {k} no longer matches a store")
+    ctx.require(n_hooks >= 30, f"only {n_hooks} coercion hooks found in {COERC}")
+
+
+# ------------------------------------------------------------------------------------------ R8
+# The text an expander returns for a list is final: `'a, b', 'c'` / `?, ?` / `(?, ?), (?, ?)`.  Taking it apart again at a
+# separator (to wrap each item in a bind_expression) is only right while no item contains the separator -- a string
+# literal `'a, b'`, a CAST target `NUMERIC(10, 2)`, a tuple row do.  Whoever needs the items has to get them from the
+# renderer (the compile-time path hands the template to the literal expander: bind_expression_template).
+REPARSE_METHODS = {"split", "rsplit", "partition", "rpartition", "splitlines"}
+REPARSE_FUNCS = {"re.split", "re.findall", "re.finditer", "shlex.split"}
+
+
+def _rendered_text_names(fn, is_source_call):
+    """Names / containers (in `fn`, nested functions included) that hold the text returned by an IN-list renderer:
+    `x = <call>` / `a, b = <call>` (the text is the last member of the pair) / `t = <name holding the pair>`,
+    `D[k] = <text>` makes D a container of texts, `y = D[k]` / `D.get(k)` / `D.pop(k)` reads one back."""
+    texts, pairs, boxes = set(), set(), set()
+    stores = []
+    subs = []
+    for n in ast.walk(fn):
+        if isinstance(n, ast.Assign):
+            for t in n.targets:
+                if isinstance(t, ast.Subscript) and isinstance(t.value, ast.Name):
+                    subs.append((t.value.id, n.value))
+                else:
+                    stores.append((t, n.value))
+        elif isinstance(n, ast.AnnAssign) and n.value is not None:
+            stores.append((n.target, n.value))
+        elif isinstance(n, ast.NamedExpr):
+            stores.append((n.target, n.value))
+
+    def is_text(e):
+        if isinstance(e, ast.Name):
+            return e.id in texts
+        if isinstance(e, ast.Subscript):
+            if isinstance(e.value, ast.Name) and e.value.id in boxes:
+                return True
+            if isinstance(e.value, ast.Name) and e.value.id in pairs:
+                return True
+            return isinstance(e.value, ast.Call) and is_source_call(e.value)
+        if isinstance(e, ast.Call) and isinstance(e.func, ast.Attribute) and e.func.attr in ("get", "pop", "setdefault") \
+                and isinstance(e.func.value, ast.Name) and e.func.value.id in boxes:
+            return True
+        if isinstance(e, ast.IfExp):
+            return is_text(e.body) or is_text(e.orelse)
+        return False
+
+    def is_pair(e):
+        return (isinstance(e, ast.Call) and is_source_call(e)) or (isinstance(e, ast.Name) and e.id in pairs)
+
+    changed = True
+    while changed:
+        changed = False
+        for t, v in stores:
+            if isinstance(t, ast.Name):
+                if is_pair(v) and t.id not in pairs:
+                    pairs.add(t.id)
+                    changed = True
+                if is_text(v) and t.id not in texts:
+                    texts.add(t.id)
+                    changed = True
+            elif isinstance(t, (ast.Tuple, ast.List)) and t.elts and is_pair(v):
+                last = t.elts[-1]
+                if isinstance(last, ast.Name) and last.id not in texts:
+                    texts.add(last.id)
+                    changed = True
+        for box, v in subs:
+            if is_text(v) and box not in boxes:
+                boxes.add(box)
+                changed = True
+    return texts, boxes, is_text
+
+
+@R.rule("C07-R8", floor=2, template="T-FLOW",
+        desc="the text an IN-list expander returned is spliced into the statement whole: no consumer takes it apart again with "
+             "split / partition / re.split (a rendered literal, a CAST target or a tuple row can contain the separator); a "
+             "bind_expression is wrapped around the items by the renderer, which knows them")
+def r8(ctx):
+    ix = ctx.index
+    base = ix.cls(BASE)
+
+    def is_expander_ref(e):
+        return isinstance(e, ast.Attribute) and e.attr.startswith(EXPANDERS_PREFIX)
+
+    consumers = []
+    for cls in [base] + sorted(ix.subclasses(base), key=lambda c: c.key):
+        for name, f in sorted(cls.methods.items()):
+            if f.type_only or name.startswith(EXPANDERS_PREFIX):
+                continue
+            if any(is_expander_ref(n) for n in ast.walk(f.node)):
+                consumers.append(f)
+    ctx.require(consumers, "no caller of the IN-list expanders found")
+    for f in consumers:
+        ctx.functions_analysed.add(f.key)
+        # the bound method may be taken into a local first (`leep = self._literal_execute_expanding_parameter_literal_binds`)
+        bound = {n for n, v, st in _all_name_stores(f.node) if v is not None and is_expander_ref(v)}
+
+        def is_source_call(c, bound=bound):
+            return is_expander_ref(c.func) or (isinstance(c.func, ast.Name) and c.func.id in bound)
+
+        texts, boxes, is_text = _rendered_text_names(f.node, is_source_call)
+        ctx.require(texts or boxes, f"{f.key}: the text returned by the expander is not bound to a name (unknown idiom)")
+        bad = []
+        for c in calls_in(f.node, into_nested=True):
+            if isinstance(c.func, ast.Attribute) and c.func.attr in REPARSE_METHODS and is_text(c.func.value):
+                bad.append((c, f"`{unparse(c)[:60]}`"))
+            elif (call_name(c) or "") in REPARSE_FUNCS and any(is_text(a) for a in c.args):
+                bad.append((c, f"`{unparse(c)[:60]}`"))
+        ctx.check(not bad, f"{f.key}:rendered-list-not-reparsed",
+                  f"{', '.join(t for _, t in bad)} takes the rendered IN list apart at a separator that can occur inside an item: "
+                  f"with a type that has a bind_expression, `x IN ('a, b', 'c')` rendered by literal_execute becomes "
+                  f"`IN (lower('a), lower(b'), lower('c'))` (still valid SQL, other rows), and a bound item rendered with a cast "
+                  f"like `CAST(? AS NUMERIC(10, 2))` is cut in two; the literal and the bound form no longer agree with the "
+                  f"OR-of-equalities.  The items must come from the renderer (cf. bind_expression_template on the compile-time path)",
+                  f"text names {sorted(texts)} / containers {sorted(boxes)} are only spliced whole",
+                  f"{f.module.path}:{bad[0][0].lineno}" if bad else f.loc)
 
 
 # ------------------------------------------------------------------------------------------ self test
